@@ -160,3 +160,27 @@ def oracle_group_mesh_point_forces(R, tier, seed):
         else:
             O["ok"] += 1
         R.mark("c11group", it)
+
+
+def oracle_two_surface_aerostruct(R, tier, seed):
+    """converged AerostructPoint with two surfaces of the same mesh shape but different structural reference lines: for EACH
+    surface the nodal loads are statically equivalent to its sectional forces about ITS OWN structural nodes"""
+    from .. import structs
+    O = R.oracle("AerostructPoint(two surfaces).loads-equivalent-to-forces")
+    p, surfs = structs.two_surface_aerostruct(seed)
+    for s in surfs:
+        n = s["name"]; pre = "AS_point_0.coupled."
+        defm = structs.g(p, pre + n + ".def_mesh"); secf = structs.g(p, pre + "aero_states.%s_sec_forces" % n); loads = structs.g(p, pre + n + ".loads")
+        w = s["fem_origin"]
+        nd = (1 - w) * defm[0] + w * defm[-1]
+        fp = 0.5 * (0.75 * defm[:-1, :-1] + 0.25 * defm[1:, :-1]) + 0.5 * (0.75 * defm[:-1, 1:] + 0.25 * defm[1:, 1:])
+        Ftot = secf.sum(axis=(0, 1)); Mtot = np.cross(fp, secf).sum(axis=(0, 1))
+        Fl = loads[:, :3].sum(axis=0); Ml = (np.cross(nd, loads[:, :3]) + loads[:, 3:]).sum(axis=0)
+        e_f = _rel(Fl, Ftot, max(np.abs(secf).sum(), 1e-300)); e_m = _rel(Ml, Mtot, max(np.abs(fp).max() * np.abs(secf).sum(), 1e-300))
+        O["cases"] += 1; O["worst"] = max(O["worst"], e_f, e_m)
+        if e_f > 1e-10 or e_m > 1e-10:
+            O["failures"].append({"key": "C11:AerostructPoint(two surfaces):%s-loads-not-equivalent-to-its-forces-about-its-nodes" % n,
+                                  "case": {"surface": n, "fem_origin": w, "surfaces": [x["name"] for x in surfs], "seed": seed}, "force_err": e_f, "moment_err": e_m})
+        else:
+            O["ok"] += 1
+    R.mark("c11two", seed)
